@@ -137,11 +137,21 @@ func (s *Server) serve(ctx context.Context, listener net.Listener, handler Modbu
 	if s.isShutdown.Load() {
 		return ErrServerClosed // Shutdown was called before we got to serve
 	}
+	// Accept does not know anything about the context, so we close the listener when context ends to unblock Accept
+	serveDone := make(chan struct{})
+	defer close(serveDone)
+	go func() {
+		select {
+		case <-ctx.Done():
+			_ = l.Close()
+		case <-serveDone:
+		}
+	}()
 
 	for {
 		netConn, err := l.Accept()
 		if err != nil {
-			if s.isShutdown.Load() {
+			if s.isShutdown.Load() || ctx.Err() != nil {
 				return ErrServerClosed
 			}
 			return err
@@ -158,6 +168,7 @@ func (s *Server) serve(ctx context.Context, listener net.Listener, handler Modbu
 
 		select {
 		case <-ctx.Done():
+			_ = netConn.Close() // do not leak connection that was accepted while context ended
 			return ErrServerClosed
 		default:
 		}
